@@ -38,3 +38,19 @@ Theorem C12_head_within_log :
   forall ops sched, (head (jrun ops sched) <= List.length (entries (jrun ops sched)))%nat.
 Proof. exact head_within_log. Qed.
 Print Assumptions C12_head_within_log.
+
+(* Creation of a named object spread over several storage paths
+   (Root.CreatePool): if the entry that makes the name visible is written only
+   after the layout is complete, then in every state another client can
+   observe -- after any prefix of the creator's storage operations, which is
+   also every state a creator that stops for good leaves behind -- whatever is
+   listed is complete.  (The order of the real CreatePool's storage operations
+   is checked against [register_last] on every run, and a second client really
+   looks at every intermediate state in the observer campaign.) *)
+From ZV Require Import Model.PoolCreate Proofs.PoolCreateProofs.
+Theorem C12_create_every_prefix_consistent :
+  forall need steps k,
+    register_last need p0 steps = true ->
+    pconsistent need (prun (firstn k steps)) = true.
+Proof. intros need steps k H. exact (create_every_prefix_consistent need steps k H). Qed.
+Print Assumptions C12_create_every_prefix_consistent.
